@@ -869,6 +869,60 @@ pub fn gen_c07(c: &mut Ctx) {
                 }
                 c.leave(saved);
             }
+            // small expression trees (mux / and / or / xor) over the word-selecting variables and two
+            // in-word ones: cofactors that are single literals x_L at high levels, nodes that pass
+            // unchanged through a level and meet others further up (seed C07-m: references that
+            // collide after a level where the literal x_L appears; n >= 9)
+            if n >= 8 {
+                let saved = c.enter(&format!("C07-trees-{}-{}", n, ty));
+                let mut vars: Vec<usize> = (6..n).collect();
+                vars.extend([0usize, 1]);
+                for _ in 0..(if c.thorough { 60 } else { 16 }) {
+                    // a random tree of depth <= 3, evaluated assignment by assignment
+                    fn tree(r: &mut Rng, vars: &[usize], depth: usize) -> Vec<usize> {
+                        // prefix code: 0 v = literal, 1 = and, 2 = or, 3 = xor, 4 = mux (three operands)
+                        if depth == 0 || r.below(4) == 0 {
+                            return vec![0, *r.pick(vars)];
+                        }
+                        let op = 1 + r.below(4);
+                        let mut v = vec![op];
+                        for _ in 0..(if op == 4 { 3 } else { 2 }) {
+                            v.extend(tree(r, vars, depth - 1));
+                        }
+                        v
+                    }
+                    fn eval(code: &[usize], pos: &mut usize, m: usize) -> bool {
+                        let op = code[*pos];
+                        *pos += 1;
+                        match op {
+                            0 => {
+                                let v = code[*pos];
+                                *pos += 1;
+                                (m >> v) & 1 != 0
+                            }
+                            4 => {
+                                let s = eval(code, pos, m);
+                                let a = eval(code, pos, m);
+                                let b = eval(code, pos, m);
+                                if s { a } else { b }
+                            }
+                            _ => {
+                                let a = eval(code, pos, m);
+                                let b = eval(code, pos, m);
+                                match op { 1 => a && b, 2 => a || b, _ => a != b }
+                            }
+                        }
+                    }
+                    let k = 1 + c.rng.below(2);
+                    let mut tabs: Vec<String> = Vec::new();
+                    for _ in 0..k {
+                        let code = tree(&mut c.rng, &vars, 3);
+                        tabs.push(Tab::from_fn(n, |m| { let mut p = 0; eval(&code, &mut p, m) }).show());
+                    }
+                    p!(c, "bdd {} {} {}", ty, n, tabs.join(" "));
+                }
+                c.leave(saved);
+            }
             // functions of few top/bottom variables: level boundaries 5/6
             for _ in 0..reps / 2 {
                 if n >= 2 {
